@@ -200,7 +200,7 @@ def _write_evidence(ctx, evidence_dir, n_obl, n_ok, violations, known_hit, error
         'wall_s': round(time.time() - ctx.t0, 3),
         'violations': len(violations),
     }
-    ev['coverage'].update(ctx.extra)
+    ev['coverage'].update({k_: v_ for k_, v_ in ctx.extra.items() if not k_.startswith('_')})   # '_…' keys are tables shared between rules, not evidence
     if error:
         ev['coverage']['analysis_error'] = error
     with open(os.path.join(evidence_dir, ctx.pid + '.json'), 'w') as fh:
